@@ -306,7 +306,7 @@ fn factor_impl(
     decreases uv(n),
 {
     let ghost f0 = factors@;
-    proof { lemma_fi_post_refl(f0); lemma_fi_pre_facts(n, alg); }
+    proof { lemma_fi_post_refl(f0); lemma_fi_pre_facts(n, alg); lemma_fi_pre_bits(n, alg); }
     // Since quadratic sieve methods work by finding non-trivial random
     // elements of multiplicative order 2 modulo n they will fail to resolve
     // prime power factors of n (because Z/p^k Z is cyclic).
@@ -608,6 +608,7 @@ fn factor_impl(
         proof {
             lemma_list_ok(n, alg, facs@, false, verif_i_f as int);
             lemma_fi_post_push(f1, f);
+            lemma_fi_pre_bits(f, alg);
         }
         if f == n {
             factors.push(f);
